@@ -155,7 +155,7 @@ class EventQueueManager:
         # TODO: Per-EQ InjectionTracker so we can inject fake responses on 499
         self._queued_events = []
         self._region = weakref.proxy(region)
-        self._last_ack: Optional[int] = None
+        self._last_ack: Optional[Tuple[Optional[str], Optional[int]]] = None
         self._last_payload: Optional[Any] = None
         self.llsd_message_serializer = LLSDMessageSerializer()
 
@@ -186,12 +186,14 @@ class EventQueueManager:
         self._queued_events = []
         return events
 
-    def cache_last_poll_response(self, req_ack: int, payload: Any):
-        self._last_ack = req_ack
+    def cache_last_poll_response(self, req_ack: int, payload: Any, eq_url: Optional[str] = None):
+        # acks only mean something within one event queue, and every queue starts out with
+        # an undef ack. Remember which queue (EventQueueGet URL) the response belonged to.
+        self._last_ack = (eq_url, req_ack)
         self._last_payload = payload
 
-    def get_cached_poll_response(self, req_ack: Optional[int]) -> Optional[Any]:
-        if self._last_ack == req_ack:
+    def get_cached_poll_response(self, req_ack: Optional[int], eq_url: Optional[str] = None) -> Optional[Any]:
+        if self._last_ack == (eq_url, req_ack):
             return self._last_payload
         return None
 
